@@ -47,7 +47,7 @@ class InjectedFault(Exception):
 def budget(tier):
     if tier == "thorough":
         return {"runs": 1500, "wall": 1500, "chunk": 1, "minimise_s": 150}
-    return {"runs": 160, "wall": 170, "chunk": 1, "minimise_s": 50}
+    return {"runs": 400, "wall": 300, "chunk": 1, "minimise_s": 50}
 
 
 def prepare(tier):
